@@ -309,7 +309,13 @@ impl Tunnel {
             Err(e) => return Err((Some(request), "Connection to peer failed", e)),
         };
 
-        log_id!(debug, request_id, "Successfully connected to {:?}", meta);
+        // the meta carries the client's credentials and SNI: log the destination only
+        log_id!(
+            debug,
+            request_id,
+            "Successfully connected to {:?}",
+            meta.destination
+        );
         log_id!(
             trace,
             request_id,
